@@ -147,7 +147,7 @@ def run_unit(u, repo=None, keep_trace=True):
     elif u.backend == "kissat":
         cmd += ["--external-sat-solver", "kissat"]
     t0 = time.time()
-    p, solver_s = _run(cmd, u.timeout, log)
+    p, solver_s = _run(cmd, min(u.timeout, int(os.environ.get("VERIF_TIMEOUT_CAP", "100000"))), log)
     out = p.stdout.decode(errors="replace")
     try:
         js = json.loads(out)
